@@ -436,7 +436,26 @@ ANCHOR_KEYS = ("id", "od", "ip", "op", "mult", "lengthInner", "lengthOuter", "wi
 KINDS_BAD = ["unknown-specifier", "unequal-heights", "unequal-xs", "unequal-mesh", "unequal-matmod", "cyclic-link",
              "unknown-link-target", "overlapping-solids", "solids-exceed-block", "duplicate-component", "duplicate-block-name",
              "duplicate-specifier", "duplicate-grid-location", "conflicting-mult",
-             "matmod-bycomponent-long", "matmod-bycomponent-short", "matmod-both-bycomponent-long", "matmod-both-byblock-short"]
+             "matmod-bycomponent-long", "matmod-bycomponent-short", "matmod-both-bycomponent-long", "matmod-both-byblock-short",
+             "overlap-liquid-cold", "overlap-solid-cold", "overlap-solid-hot"]
+
+
+def make_overlap(doc, material, mode):
+    """Fuel and clad overlap, seen through the component LINKED between them (`id: fuel.od, od: clad.id`):
+    cold = the cold fuel OD is larger than the cold clad ID; hot = they only meet after the fuel's thermal expansion."""
+    doc["anchors"] = False
+    for blk in doc["blocks"].values():
+        blk["fuel"].update(material="UZr", Tinput=25.0, Thot=600.0)
+        blk["clad"].update(Tinput=25.0, Thot=25.0)
+        keep = {k: blk["bond"][k] for k in ("mult", "latticeIDs") if k in blk["bond"]}
+        if isinstance(keep.get("mult"), str):
+            keep["mult"] = "fuel.mult"
+        blk["bond"] = dict(shape="Circle", material=material, Tinput=25.0, Thot=25.0, id="fuel.od", od="clad.id", **keep)
+        fod = blk["fuel"]["od"]
+        blk["clad"]["id"] = round(fod - 0.05, 4) if mode == "cold" else round(fod * 1.002, 5)
+        blk["clad"]["od"] = round(blk["clad"]["id"] + 0.1, 4)
+    for a in doc["assems"].values():
+        a.pop("matmods", None)
 BLOCK_WORDS = ["fuel", "shield", "reflector", "plenum", "duct", "control", "grid plate", "shield block", "load pad", "gap1"]
 NUCLIDE_FLAGS = """nuclide flags:
     U235: {burn: false, xs: true}
@@ -452,6 +471,7 @@ NUCLIDE_FLAGS = """nuclide flags:
     W: {burn: false, xs: true}
     C: {burn: false, xs: true}
     SI: {burn: false, xs: true}
+    PB: {burn: false, xs: true}
 """
 
 
@@ -1106,6 +1126,12 @@ def text_inconsistency(kind, text, an):
     if kind == "overlapping-solids":
         return None if any(isinstance(b["clad"]["id"], float) and b["clad"]["id"] < b["fuel"]["od"] and b["bond"]["material"] == "HT9"
                            for b in blocks.values()) else "no solid liner squeezed to negative area"
+    if kind.startswith("overlap-"):
+        cold = kind.endswith("cold")
+        ok = all(b["bond"].get("id") == "fuel.od" and b["bond"].get("od") == "clad.id" and
+                 ((b["clad"]["id"] < b["fuel"]["od"]) if cold else (b["fuel"]["od"] < b["clad"]["id"] < b["fuel"]["od"] * 1.005))
+                 for b in blocks.values())
+        return None if ok else "the linked component between fuel and clad is not squeezed as the kind says"
     if kind == "solids-exceed-block":
         return None if any(b["fuel"].get("mult") == 5000.0 for b in blocks.values()) else "no oversized multiplicity"
     if kind == "conflicting-mult":
@@ -1230,6 +1256,10 @@ def run_blueprints(ctx):
             elif kind == "solids-exceed-block":
                 blk = doc["blocks"][bt]
                 blk["fuel"]["mult"] = 5000.0
+            elif kind.startswith("overlap-"):
+                # overlapping solids seen as the negative area of the linked component between them: a liquid or a solid
+                # is refused when the overlap is cold, a solid also when it is only hot
+                make_overlap(doc, ["Sodium", "Lead"][(t // len(KINDS_BAD)) % 2] if "liquid" in kind else "HT9", kind.rsplit("-", 1)[1])
             elif kind == "conflicting-mult":
                 # a lattice component that declares a multiplicity other than 1 or its number of lattice positions
                 bt = list(doc["blocks"])[0]
@@ -1291,6 +1321,22 @@ def run_blueprints(ctx):
                 B.send(line, None, {"tag": tag})
                 B.reject_expected = getattr(B, "reject_expected", []) + [(len(B.req) - 1, refused, tag)]
             ctx.case(("bp-bad", tag, text), nontrivial=True)
+        # ---- the same overlaps with a Void gap are tolerated by design (and a liquid squeezed only when hot is not judged)
+        for t in range(ctx.pick(6, 40)):
+            mat, mode = [("Void", "cold"), ("Void", "hot"), ("Sodium", "hot")][t % 3]
+            doc = gen_doc(rng, geom=rng.choice(["hex", "hex_corners_up"]))
+            make_overlap(doc, mat, mode)
+            text = to_yaml(doc, None)
+            try:
+                build(text)
+                outcome = "built"
+            except Exception as e:
+                outcome = f"refused: {type(e).__name__}"
+                if mat == "Void":
+                    fail_few(ctx, "bp-void-gap-refused", "a Void gap between overlapping components is tolerated (negative area allowed for Void)",
+                             {"tag": f"void#{t}:{mode}", "yaml": text[:3000]}, observed=f"{type(e).__name__}: {e}"[:300])
+            ctx.count(f"{mat} gap squeezed {mode}: {outcome}")
+            ctx.case(("bp-gap", mat, mode, text), nontrivial=True)
         _flush_bp(ctx, B)
     ctx.count("well-formed documents built", n_ok)
 
